@@ -218,5 +218,7 @@ def run(res, a):
     rng = core.rng_for(ID, res.seed)
     cases = core.load_corpus("crash") + gen(rng, a.tier)
     core.run_correspondence(res, "crash", cases, me)
+    from . import c18
+    c18.concurrent_sets(res, a, ID)      # two writes of one key share the temp file: they must not overlap
     res.extra["exhaustive"] = True
     res.trusted.append("strace (T3) output parsing; SIGKILL self-delivery in the verif-tagged hook")
